@@ -68,6 +68,7 @@ def run(prog, R, tier="quick", only_rule=None):
     # blob files written for filter replacements join the version in both flavours (shared with C17.d)
     from rules.props import c17
     c17.c17d(prog, R, rid="C08.k")
+    c17.c17g(prog, R, rid="C08.l")
 
 
 def c08a(prog, R):
